@@ -52,18 +52,20 @@ def freeze(o, depth=0, seen=None):
     return ("leaf", type(o).__name__, id(o))
 
 
-def shared_state(keys=(), keysets=()):
+def shared_state(keys=(), keysets=(), objs=()):
     # the snapshot itself is plain bookkeeping: run it outside CrossHair's tracing (it walks every joserfc module)
     try:
         from crosshair.tracers import NoTracing
     except ImportError:  # pragma: no cover
-        return _shared_state(keys, keysets)
+        return _shared_state(keys, keysets, objs)
     with NoTracing():
-        return _shared_state(keys, keysets)
+        return _shared_state(keys, keysets, objs)
 
 
-def _shared_state(keys=(), keysets=()):
+def _shared_state(keys=(), keysets=(), objs=()):
     st = {}
+    for i, o in enumerate(objs):
+        st["shared object %d (%s)" % (i, type(o).__name__)] = freeze(o)
     for name, mod in list(sys.modules.items()):
         if not name.startswith("joserfc") or mod is None:
             continue
@@ -170,7 +172,7 @@ JWE_ALG = [("dir", 1, "A128GCM"), ("A128KW", 1, "A128CBC-HS256"), ("RSA-OAEP", 2
            ("A128GCMKW", 1, "A128GCM")]
 
 
-def do_op(op, keys, ks, a_i, payload, kid, allow_listed, v0, v1):
+def do_op(op, keys, ks, a_i, payload, kid, allow_listed, v0, v1, regs=None):
     """one call of operation kind `op` on the shared objects; every call gets its own header / claims objects"""
     alg, ki = JWS_ALG[a_i % 3]
     jalg, jki, jenc = JWE_ALG[a_i % 6]
@@ -195,35 +197,38 @@ def do_op(op, keys, ks, a_i, payload, kid, allow_listed, v0, v1):
     env.ceks = [bytes(32 if "CBC" in jenc else 16)] * 2
     algs = [alg] if allow_listed else None
     jalgs = [jalg, jenc]
+    # registries: per-call allow-lists, or caller-made registry objects SHARED by all calls (regs)
+    kw = {"registry": regs[0]} if regs else {"algorithms": [alg]}
+    jkw = {"registry": regs[1]} if regs else {"algorithms": jalgs}
     key, jkey = keys[ki], keys[jki]
     with env.installed(patches() + [(random, "choice", lambda s: s[0])]):
         try:
             if op == 0:
-                return jws.serialize_compact(hdr, payload, key, algorithms=[alg])
+                return jws.serialize_compact(hdr, payload, key, **kw)
             if op == 1:
-                return jws.deserialize_compact(b"HDRSEG.PAYSEG.SIGSEG", key, algorithms=[alg]).payload
+                return jws.deserialize_compact(b"HDRSEG.PAYSEG.SIGSEG", key, **kw).payload
             if op == 2:
-                return jws.serialize_json({"protected": hdr}, payload, key, algorithms=[alg])
+                return jws.serialize_json({"protected": hdr}, payload, key, **kw)
             if op == 3:
-                return jws.deserialize_json({"payload": "PAYSEG", "protected": "HDRSEG", "signature": "SIGSEG"}, key, algorithms=[alg]).payload
+                return jws.deserialize_json({"payload": "PAYSEG", "protected": "HDRSEG", "signature": "SIGSEG"}, key, **kw).payload
             if op == 4:
-                return jwe.encrypt_compact(jhdr, payload, jkey, algorithms=jalgs)
+                return jwe.encrypt_compact(jhdr, payload, jkey, **jkw)
             if op == 5:
                 ek = b"" if jalg == "dir" else b"EKSEG"
-                return jwe.decrypt_compact(b"PROTSEG." + ek + b".IVSEG.CTSEG.TAGSEG", jkey, algorithms=jalgs).plaintext
+                return jwe.decrypt_compact(b"PROTSEG." + ek + b".IVSEG.CTSEG.TAGSEG", jkey, **jkw).plaintext
             if op == 6:
                 o = jwe.FlattenedJSONEncryption({"enc": jenc}, payload)
                 o.add_recipient({"alg": jalg}, jkey)
-                return jwe.encrypt_json(o, None, algorithms=jalgs)
+                return jwe.encrypt_json(o, None, **jkw)
             if op == 7:
                 v = {"protected": "PROTSEG", "iv": "IVSEG", "ciphertext": "CTSEG", "tag": "TAGSEG"}
                 if jalg != "dir":
                     v["encrypted_key"] = "EKSEG"
-                return jwe.decrypt_json(v, jkey, algorithms=jalgs).plaintext
+                return jwe.decrypt_json(v, jkey, **jkw).plaintext
             if op == 8:
-                return jwt.encode(hdr, {"sub": "x"}, key, algorithms=algs or [alg])
+                return jwt.encode(hdr, {"sub": "x"}, key, **kw)
             if op == 9:
-                return jwt.decode(b"HDRSEG.PAYSEG.SIGSEG", key, algorithms=[alg]).claims
+                return jwt.decode(b"HDRSEG.PAYSEG.SIGSEG", key, **kw).claims
             if op == 10:
                 k = keys[a_i % 4]
                 # (the lazily assigned thumbprint kid is the documented exception: results are compared without it)
@@ -240,6 +245,11 @@ def do_op(op, keys, ks, a_i, payload, kid, allow_listed, v0, v1):
             return ("raised", type(e).__name__)
 
 
+def mk_regs():
+    """registry objects a caller builds once and shares between calls"""
+    return (JWSRegistry(algorithms=[a for a, _ in JWS_ALG]), JWERegistry(algorithms=[a for a, _, _ in JWE_ALG] + ["A128GCM", "A128CBC-HS256"]))
+
+
 def frame(op: int, a_i: int, lazy: bool, use_i: int, payload: bytes, has_kid: bool, kid: str, allow_listed: bool, v0: bool, v1: bool) -> bool:
     """
     PRE: 0 <= op < 12 and 0 <= a_i <= 5 and 0 <= use_i <= 2 and len(payload) <= 1 and len(kid) <= 1
@@ -249,9 +259,11 @@ def frame(op: int, a_i: int, lazy: bool, use_i: int, payload: bytes, has_kid: bo
     keys, logs = mk_shared(lazy, use_i)
     ks = KeySet.__new__(KeySet)
     ks.keys = list(keys)
-    before = shared_state(keys, [ks])
-    r1 = do_op(op, keys, ks, a_i, payload, kid if has_kid else None, allow_listed, v0, v1)
-    mid = shared_state(keys, [ks])
+    regs = mk_regs() if allow_listed else None
+    objs = regs or ()
+    before = shared_state(keys, [ks], objs)
+    r1 = do_op(op, keys, ks, a_i, payload, kid if has_kid else None, allow_listed, v0, v1, regs)
+    mid = shared_state(keys, [ks], objs)
     d1 = diff(before, mid, keys)
     if d1:
         return False
@@ -260,8 +272,8 @@ def frame(op: int, a_i: int, lazy: bool, use_i: int, payload: bytes, has_kid: bo
         if any(k != "kid" for (w, k) in log):
             return False
     # idempotence: running again neither changes shared state nor the lazy views
-    r2 = do_op(op, keys, ks, a_i, payload, kid if has_kid else None, allow_listed, v0, v1)
-    after = shared_state(keys, [ks])
+    r2 = do_op(op, keys, ks, a_i, payload, kid if has_kid else None, allow_listed, v0, v1, regs)
+    after = shared_state(keys, [ks], objs)
     for k in after:
         if mid.get(k) != after.get(k):
             return False
@@ -282,12 +294,13 @@ def two_ops(op1: int, op2: int, a1: int, a2: int, lazy: bool, use_i: int, v0: bo
     keys, _ = mk_shared(lazy, use_i)
     ks = KeySet.__new__(KeySet)
     ks.keys = list(keys)
-    do_op(op1, keys, ks, a1, b"p", None, False, v0, v1)
-    after = do_op(op2, keys, ks, a2, b"q", None, False, v0, v1)
+    regs = mk_regs()
+    do_op(op1, keys, ks, a1, b"p", None, False, v0, v1, regs)
+    after = do_op(op2, keys, ks, a2, b"q", None, False, v0, v1, regs)
     keys2, _ = mk_shared(lazy, use_i)
     ks2 = KeySet.__new__(KeySet)
     ks2.keys = list(keys2)
-    alone = do_op(op2, keys2, ks2, a2, b"q", None, False, v0, v1)
+    alone = do_op(op2, keys2, ks2, a2, b"q", None, False, v0, v1, mk_regs())
     return norm(after) == norm(alone)
 
 
@@ -310,10 +323,127 @@ def witness(op: int, a_i: int, lazy: bool, use_i: int, v0: bool, v1: bool) -> bo
 
 
 # ------------------------------------------------------------------ replay on real objects: histories and one-preemption schedules
+def real_registry_histories():
+    """sequential histories on shared registries (a caller-made instance and the module default) and on a shared key set"""
+    R, J = _real_world()
+    out = []
+    kw16 = JWKRegistry.import_key(dict(J["oct16"]))
+    first = [("ECDH-ES+A128KW", JWKRegistry.import_key(R.public_jwk(J["EC"])), {"apu": "QWxpY2U"}),
+             ("A128GCMKW", kw16, {"iv": "AAAAAAAAAAAAAAAA", "tag": "AAAAAAAAAAAAAAAAAAAAAA"}),
+             ("PBES2-HS256+A128KW", JWKRegistry.import_key(dict(J["oct32"])), {"p2c": 1000, "p2s": "c2FsdHNhbHQ"})]
+
+    def enc(reg, hdr, key, **kw):
+        try:
+            jwe.encrypt_compact(dict(hdr), b"x", key, registry=reg, **kw)
+            return "returned"
+        except Exception as e:  # noqa
+            return type(e).__name__
+    for alg1, key1, foreign in first:
+        for name, val_ in foreign.items():
+            hdr2 = {"alg": "A128KW", "enc": "A128GCM", name: val_}
+            for label, mk in (("a caller-made JWERegistry", lambda: JWERegistry(algorithms=[alg1, "A128KW", "A128GCM"])), ("the default registry", lambda: None)):
+                if mk() is None and alg1 != "ECDH-ES+A128KW":
+                    continue                                     # (only recommended algorithms work with the default registry)
+                alone = enc(mk(), hdr2, kw16)
+                reg = mk()
+                r1 = enc(reg, {"alg": alg1, "enc": "A128GCM"}, key1)
+                after = enc(reg, hdr2, kw16)
+                if after != alone:
+                    out.append("%s: encrypt with alg=A128KW and header member %r %s in isolation but %s after a %s call (%s) on the same registry"
+                               % (label, name, alone, after, alg1, r1))
+    # a shared key set after calls that pick a key from it
+    from joserfc.jwk import KeySet as _KS
+    mk_set = lambda: _KS([JWKRegistry.import_key(dict(J["oct32"], kid="dup")), JWKRegistry.import_key(dict(J["EC"], kid="dup")),
+                          JWKRegistry.import_key(dict(J["RSA"], kid="rsa"))])
+    tok = jws.serialize_compact({"alg": "HS256", "kid": "dup"}, b"m", JWKRegistry.import_key(dict(J["oct32"], kid="dup")), algorithms=["HS256"])
+
+    def ver(ks):
+        try:
+            return jws.deserialize_compact(tok, ks, algorithms=["HS256"]).payload
+        except Exception as e:  # noqa
+            return type(e).__name__
+    alone = ver(mk_set())
+    ks = mk_set()
+    order0 = [(k.key_type, k.kid) for k in ks.keys]
+    res = set()
+    for i in range(12):
+        jws.serialize_compact({"alg": "ES256"}, b"p%d" % i, ks, algorithms=["ES256"])
+        jws.serialize_compact({"alg": "RS256"}, b"p%d" % i, ks, algorithms=["RS256"])
+        res.add(ver(ks))
+    if res != {alone}:
+        out.append("shared key set: verifying an HS256 token gave %r after signing calls that picked keys from the set; with a fresh identical set: %r" % (sorted(map(str, res)), alone))
+    if [(k.key_type, k.kid) for k in ks.keys] != order0:
+        out.append("shared key set: the order of its keys (what as_dict() and lookups observe) changed from %r to %r after signing calls without kid" % (order0, [(k.key_type, k.kid) for k in ks.keys]))
+    return out
+
+
+def real_call_preemptions():
+    """one-preemption schedules over WHOLE calls: thread A runs a call and is suspended at each line boundary inside joserfc; thread B then
+    runs another call (other allow-list / other token) to completion; both verdicts must equal the isolated ones"""
+    import threading
+    R, J = _real_world()
+    out = []
+    k32 = JWKRegistry.import_key(dict(J["oct32"]))
+    k64 = JWKRegistry.import_key({"kty": "oct", "k": R.b64e(bytes(range(64)))})
+    t256 = jws.serialize_compact({"alg": "HS256"}, b"a", k32, algorithms=["HS256"])
+    t384 = jws.serialize_compact({"alg": "HS384"}, b"b", k64, algorithms=["HS384"])
+    kw = JWKRegistry.import_key(dict(J["oct16"]))
+    e_kw = jwe.encrypt_compact({"alg": "A128KW", "enc": "A128GCM"}, b"c", kw, algorithms=["A128KW", "A128GCM"])
+    e_gk = jwe.encrypt_compact({"alg": "A128GCMKW", "enc": "A128GCM"}, b"d", kw, algorithms=["A128GCMKW", "A128GCM"])
+
+    def call(fn, *a, **k):
+        def run():
+            try:
+                r = fn(*a, **k)
+                return getattr(r, "payload", getattr(r, "plaintext", "returned"))
+            except Exception as e:  # noqa
+                return type(e).__name__
+        return run
+    pairs = [("JWS verify allowing HS384 / HS384 token", call(jws.deserialize_compact, t384, k64, algorithms=["HS384"]),
+              "JWS verify allowing only HS256 / HS256 token", call(jws.deserialize_compact, t256, k32, algorithms=["HS256"])),
+             ("JWS verify allowing only HS256 / HS384 token", call(jws.deserialize_compact, t384, k64, algorithms=["HS256"]),
+              "JWS verify allowing HS384 / HS384 token", call(jws.deserialize_compact, t384, k64, algorithms=["HS384"])),
+             ("JWE decrypt allowing A128GCMKW", call(jwe.decrypt_compact, e_gk, kw, algorithms=["A128GCMKW", "A128GCM"]),
+              "JWE decrypt allowing A128KW", call(jwe.decrypt_compact, e_kw, kw, algorithms=["A128KW", "A128GCM"])),
+             ("JWE decrypt of an A128GCMKW token allowing only A128KW", call(jwe.decrypt_compact, e_gk, kw, algorithms=["A128KW", "A128GCM"]),
+              "JWE decrypt allowing A128GCMKW", call(jwe.decrypt_compact, e_gk, kw, algorithms=["A128GCMKW", "A128GCM"]))]
+    for la, fa, lb, fb in pairs:
+        alone_a, alone_b = fa(), fb()
+        for stop_at in range(1, 400):
+            state = {"n": 0, "fired": False, "b": None, "a": None}
+
+            def tracer(frame, event, arg):
+                if event == "line" and "/joserfc/" in frame.f_code.co_filename:
+                    state["n"] += 1
+                    if state["n"] == stop_at and not state["fired"]:
+                        state["fired"] = True
+                        sys.settrace(None)
+                        state["b"] = fb()                 # B runs to completion while A is suspended here
+                        sys.settrace(tracer)
+                return tracer
+
+            def thread_a():
+                sys.settrace(tracer)
+                try:
+                    state["a"] = fa()
+                finally:
+                    sys.settrace(None)
+            t = threading.Thread(target=thread_a)
+            t.start()
+            t.join()
+            if not state["fired"]:
+                break
+            if state["a"] != alone_a or state["b"] != alone_b:
+                out.append("[%s] suspended at line event #%d while [%s] runs: outcomes %r / %r, in isolation %r / %r"
+                           % (la, stop_at, lb, state["a"], state["b"], alone_a, alone_b))
+                break
+    return out
+
+
 def replay(func, call):
     import warnings
     warnings.simplefilter("ignore")
-    probs = real_histories() + real_preemptions()
+    probs = real_histories() + real_registry_histories() + real_preemptions() + real_call_preemptions()
     if probs:
         return {"violated": True, "key": "c20-" + func, "detail": "; ".join(probs[:3])}
     return {"violated": None, "detail": "shared state is written (%s %s) but no scripted history or one-preemption schedule changes an outcome" % (func, call)}
